@@ -18,8 +18,8 @@ EXTRA_NOTES = {
     "C09": "Half of the samples are taken by a caller that damages an earlier result in place first; a third / a quarter of the (68,28) / (128,72) messages are little-endian bitarrays. Growth phase embedded-LC reassembly (EmbeddedLC.tla, MC_EmbeddedLC, Trace_EmbeddedLC) on the real EmbeddedExtractor, informational.",
     "C10": "One block in three is processed by a caller that damages earlier results in place and asks again; one in four is kept in little-endian bitarrays; every fourth damaged stream is followed by a valid block; interleave/deinterleave are also composed directly.",
     "C11": "Results held and read late, mutable buffers, accepted words offered again under the other masks.",
-    "C12": "Opcodes interleaved, impolite caller, HRNP packet numbers aimed at the corners of ones-complement addition, GPS speeds over the whole NMEA range. Growth phase protocol detection (Detect.tla, MC_Detect), informational.",
-    "C13": "One frame in four is received twice with the first decoding edited in between; ids with zero / all-ones octets in each position.",
+    "C12": "Opcodes interleaved, impolite caller, HRNP packet numbers aimed at the corners of ones-complement addition, GPS speeds over the whole NMEA range. Growth phases: per-opcode payload layouts of all 32 opcodes (HyteraPayloads.tla, drift), protocol detection (Detect.tla, MC_Detect), informational.",
+    "C13": "Growth phase MMDVM DMRD frames (MMDVM.tla, MC_MMDVM), informational. One frame in four is received twice with the first decoding edited in between; ids with zero / all-ones octets in each position.",
     "C14": "Coordinates and info-times are read back through the library's own XML view; TLC judges in slices of 300 000 records.",
     "C15": "Buffers are also framed by the harness as the grammar says (not only by the library's serialiser); result codes incl. 0 and septet boundaries.",
     "C16": "UCS-2 texts with 0x00/0x7F/0x80/0xFF octets in first, middle and last position; impolite caller.",
